@@ -272,6 +272,15 @@ pub fn workloads(tier: Tier) -> Vec<Workload> {
             out.push(Workload { ty, ops: vec![WOp::W(0), WOp::F, WOp::W(1), WOp::W(0)], big, slice: (i, 16) });
         }
     }
+    // thousands of records: 10001 writes, a finalize, one more write (thorough: also 20001 and a multi-vertex type)
+    for (ty, n) in tier.pick(vec![(Ty::Point, 10001usize)], vec![(Ty::Point, 10001), (Ty::Point, 20001), (Ty::PolylineZ, 10001)]) {
+        let mut ops: Vec<WOp> = (0..n).map(|i| WOp::W((i % 2) as u8)).collect();
+        ops.push(WOp::F);
+        ops.push(WOp::W(0));
+        for i in 0..16 {
+            out.push(Workload { ty, ops: ops.clone(), big: 0, slice: (i, 16) });
+        }
+    }
     out
 }
 
@@ -298,6 +307,10 @@ fn run_unit(w: &Workload, ctx: &mut Ctx, tick: &dyn Fn()) {
     // cases are distinct by construction here (images are deduplicated by
     // content per workload, workloads are distinct): count structurally instead of hashing
     ctx.track_hashes = false;
+    if w.ops.len() > 500 {
+        run_unit_many(w, &pal, &run, ctx, tick);
+        return;
+    }
     if w.big > 0 {
         run_unit_streaming(w, &pal, &run, ctx, tick);
         return;
@@ -357,6 +370,136 @@ fn run_unit(w: &Workload, ctx: &mut Ctx, tick: &dyn Fn()) {
     if w.ops.len() >= 3 {
         ctx.sample(|| json!({"workload": w.to_json(), "shp_log_ops": run.shp_log.len(), "shx_log_ops": run.shx_log.len(), "shp_images": shp_imgs.list.len(), "shx_images": shx_imgs.list.len()}));
     }
+}
+
+/// The image after the first k operations of the log plus the first b bytes of operation k (if it is a write).
+pub fn image_at(log: &[Op], k: usize, b: usize) -> Vec<u8> {
+    let mut img: Vec<u8> = vec![];
+    let mut put = |img: &mut Vec<u8>, pos: usize, bytes: &[u8]| {
+        if img.len() < pos + bytes.len() {
+            img.resize(pos + bytes.len(), 0);
+        }
+        img[pos..pos + bytes.len()].copy_from_slice(bytes);
+    };
+    for op in log.iter().take(k) {
+        if let Op::Write { pos, bytes, .. } = op {
+            put(&mut img, *pos as usize, bytes);
+        }
+    }
+    if b > 0 {
+        if let Some(Op::Write { pos, bytes, .. }) = log.get(k) {
+            put(&mut img, *pos as usize, &bytes[..b.min(bytes.len())]);
+        }
+    }
+    img
+}
+
+/// Workloads of thousands of records: the crash points in windows of +-1 record around the record counts
+/// 1000, 1024, 4096, 8192, 10000 (and every further multiple of 10000), around every finalize, and in the last
+/// three calls and drop; per point the cuts b in {0, 1, 4, 7}; the index as persisted at the operation
+/// boundaries of the same window, complete, or absent.
+fn run_unit_many(w: &Workload, pal: &Palette, run: &Run, ctx: &mut Ctx, tick: &dyn Fn()) {
+    let n_calls = w.ops.len();
+    let mut marks: Vec<usize> = vec![1000, 1024, 4096, 8192];
+    let mut m = 10000;
+    while m <= n_calls + 1 {
+        marks.push(m);
+        m += 10000;
+    }
+    // call index -> number of the record it writes (1-based), for W calls
+    let mut rec_of_call = vec![0usize; n_calls + 2];
+    let mut r = 0;
+    for (i, op) in w.ops.iter().enumerate() {
+        if matches!(op, WOp::W(_)) {
+            r += 1;
+            rec_of_call[i] = r;
+        }
+    }
+    let in_window = |call: usize| -> bool {
+        if call + 3 >= n_calls {
+            return true; // the last three calls, the ending and drop
+        }
+        match w.ops.get(call) {
+            Some(WOp::F) => true,
+            Some(WOp::W(_)) => marks.iter().any(|m| rec_of_call[call] + 1 >= *m && rec_of_call[call] <= *m + 1),
+            _ => false,
+        }
+    };
+    // selected cuts of the index: operation boundaries inside windows, by call
+    let mut shx_cuts: Vec<(usize, usize)> = vec![]; // (k, call)
+    for (k, op) in run.shx_log.iter().enumerate() {
+        if in_window(op.call() as usize) {
+            shx_cuts.push((k, op.call() as usize));
+        }
+    }
+    shx_cuts.push((run.shx_log.len(), n_calls + 1));
+    let mut counter = 0usize;
+    let mut n_points = 0u64;
+    let mut n_pairs = 0u64;
+    let mut img: Vec<u8> = vec![];
+    let nk = run.shp_log.len();
+    for k in 0..=nk {
+        let call = run.shp_log.get(k).map(|o| o.call() as usize).unwrap_or(n_calls + 1);
+        if in_window(call) {
+            let wlen = match run.shp_log.get(k) {
+                Some(Op::Write { bytes, .. }) => bytes.len(),
+                _ => 0,
+            };
+            for b in [0usize, 1, 4, 7] {
+                if b > 0 && b >= wlen {
+                    continue;
+                }
+                counter += 1;
+                if counter % w.slice.1 != w.slice.0 {
+                    continue;
+                }
+                n_points += 1;
+                let mut cut = img.clone();
+                if b > 0 {
+                    if let Some(Op::Write { pos, bytes, .. }) = run.shp_log.get(k) {
+                        let pos = *pos as usize;
+                        if cut.len() < pos + b {
+                            cut.resize(pos + b, 0);
+                        }
+                        cut[pos..pos + b].copy_from_slice(&bytes[..b]);
+                    }
+                }
+                let req = run.finalized.iter().filter(|(n_ops, _)| *n_ops <= k).map(|(_, n)| *n).max().unwrap_or(0);
+                let near: Vec<Option<usize>> = std::iter::once(None)
+                    .chain(shx_cuts.iter().filter(|(_, c)| *c + 1 >= call && *c <= call + 1 || *c == n_calls + 1).map(|(k2, _)| Some(*k2)))
+                    .collect();
+                for sk in near {
+                    let shx_img = sk.map(|k2| image_at(&run.shx_log, k2, 0));
+                    let case = || Case { w: w.clone(), shp_cut: (k, b), shx_cut: sk.map(|k2| (k2, 0)) }.to_json();
+                    n_pairs += 1;
+                    match catch(|| read_image(&cut, shx_img.as_deref(), run.written.len())) {
+                        Ok(seen) => {
+                            ctx.evals += 1;
+                            ctx.lib_calls += 2 + seen.items.len() as u64 + seen.nth.len() as u64;
+                            for (sig, d) in judge(pal, &run.written, req, sk.is_some(), &seen) {
+                                ctx.violation(format!("{}:many-records:{}", w.ty.name(), sig), case, || d);
+                            }
+                        }
+                        Err(p) => {
+                            ctx.evals += 1;
+                            ctx.violation(format!("{}:many-records:{}", w.ty.name(), p.sig()), case, || format!("{}:{} {}", p.file, p.line, p.msg));
+                        }
+                    }
+                }
+                tick();
+            }
+        }
+        if let Some(Op::Write { pos, bytes, .. }) = run.shp_log.get(k) {
+            let pos = *pos as usize;
+            if img.len() < pos + bytes.len() {
+                img.resize(pos + bytes.len(), 0);
+            }
+            img[pos..pos + bytes.len()].copy_from_slice(bytes);
+        }
+    }
+    ctx.structural_distinct += n_pairs;
+    ctx.structural_nontrivial += n_pairs;
+    ctx.bump("shp_crash_points", n_points);
 }
 
 /// Large workloads: tens of thousands of .shp crash points of tens of KiB each; images are
@@ -457,7 +600,7 @@ pub fn check(tier: Tier) -> i32 {
             tier,
             level: "fault_enumeration",
             engine: "writer histories executed on the real ShapeWriter over logging devices; every crash image (operation prefix x torn write) of .shp and, independently, .shx fed to the real ShapeReader",
-            rule: "workloads = histories over {Wa, Wb, F} with <= 3 writes and <= 2 finalizes at any placement (finalize before the first write included), ending in drop, plus three workloads whose records have a part of 1000 / 1500 / 2000 points (for these: every operation boundary and cuts after 1, 4, 7 bytes of every write on the .shp, the .shx as persisted after each complete operation); crash points = for each device every k (operations applied) and every b (bytes of operation k+1 applied, 0 < b < len), images deduplicated by content (so cases are distinct by construction and are counted structurally, not hashed); evaluated: every .shp image without index, and every (.shp image, .shx image) pair with index; non-trivial = some operation applied or a torn write",
+            rule: "workloads = histories over {Wa, Wb, F} with <= 3 writes and <= 2 finalizes at any placement (finalize before the first write included), ending in drop, plus a workload of 10001 writes, a finalize and one more write (thorough: also 20001, and PolylineZ) evaluated at the crash points in windows of +-1 record around the record counts 1000, 1024, 4096, 8192 and every multiple of 10000, around the finalize and in the last three calls and drop (cuts b in {0,1,4,7}; index absent, complete, or as persisted at the operation boundaries of the same window), plus three workloads whose records have a part of 1000 / 1500 / 2000 points (for these: every operation boundary and cuts after 1, 4, 7 bytes of every write on the .shp, the .shx as persisted after each complete operation); crash points = for each device every k (operations applied) and every b (bytes of operation k+1 applied, 0 < b < len), images deduplicated by content (so cases are distinct by construction and are counted structurally, not hashed); evaluated: every .shp image without index, and every (.shp image, .shx image) pair with index; non-trivial = some operation applied or a torn write",
             bounds: json!({"workloads": ws.len(), "types": tier.pick(6, 13), "max_writes": 3, "max_finalizes": 2, "max_len": tier.pick(4, 5)}),
             exhaustive: true,
             assumptions: vec![
@@ -483,14 +626,11 @@ pub fn replay(v: &Value) -> Vec<(String, String)> {
     let pal = palette_for(&case.w);
     let run = run_workload(&pal, &case.w);
     let find = |log: &[Op], cut: (usize, usize), fin: &[(usize, usize)]| -> Option<(Vec<u8>, usize)> {
-        let mut r = None;
-        crash_images(log, |k, b, img| {
-            if (k, b) == cut {
-                let req = fin.iter().filter(|(n, _)| *n <= k).map(|(_, n)| *n).max().unwrap_or(0);
-                r = Some((img.to_vec(), req));
-            }
-        });
-        r
+        if cut.0 > log.len() {
+            return None;
+        }
+        let req = fin.iter().filter(|(n, _)| *n <= cut.0).map(|(_, n)| *n).max().unwrap_or(0);
+        Some((image_at(log, cut.0, cut.1), req))
     };
     let (shp, req) = match find(&run.shp_log, case.shp_cut, &run.finalized) {
         Some(x) => x,
